@@ -62,6 +62,7 @@ def make_world(env, rng, kind, lb_params=None, open_delay=None, get_servers_dela
       self.created_step = w.step
       self.removed_step = None   # step at which the balancer was told it left / contracted it
       self.opening = None
+      self.opens_in_flight = 0   # Open() calls whose result has not completed yet
       self.close_raises = False
       w.channels.append(self)
       if w.dispatching is not None:
@@ -81,7 +82,10 @@ def make_world(env, rng, kind, lb_params=None, open_delay=None, get_servers_dela
       delay, ok = w.open_delay(self)
       me = self
 
+      me.opens_in_flight += 1
+
       def fin():
+        me.opens_in_flight -= 1
         if me.close_steps:
           ar.set_exception(Exception('closed while opening'))
           return
